@@ -3,7 +3,8 @@ import XmppModel.Model.Muc
 /-! Driver module for C18: replays an observed MUC history on the LTS of `Model/Muc.lean`.
 
     C18 muc <addrs> <trace>      addrs: occupant address id of channel 0,1,… (`,`-joined)
-      J<c> Join starts (registered, request queued); J<c>@<a> the same with the Nick option (address a)
+      J<c> Join starts (registered, request queued); J<c>@<a> the same with the Nick option (address a);
+        a trailing `!` (J<c>!, J<c>@<a>!, L<c>!): through JoinPresence / LeavePresence with the caller's presence
       s<c> Join enters its select   R<c>re Join refused at once (address in use by another channel)
       A<a> / U<a> available / unavailable muc#user presence from address a processed; optional payload
         suffix `:<aff><role><codes><flags>` (harness/c18/payload.go), default member / participant / 110
@@ -95,10 +96,13 @@ def replyChan (ns : String) (r : List Char) : Option (List Char) :=
 
 def applyTok (ns : String) (n : Nat) (s : St) (tok : String) : Option St :=
   let idx (r : List Char) : Option Nat := do let c ← numOf r; if c < n then some c else none
+  -- a trailing `!` on J / L: the call went through JoinPresence / LeavePresence with a presence of
+  -- the caller's; the bookkeeping is the same
+  let bang (r : List Char) : List Char := if r.getLast? = some '!' then r.dropLast else r
   match tok.toList with
   | 'J' :: r =>
     -- J<c>: Join asking for the address the channel holds;  J<c>@<a>: Nick option, address a
-    match (String.ofList r).splitOn "@" with
+    match (String.ofList (bang r)).splitOn "@" with
     | [cs] => do let c ← idx cs.toList; step s (.joinStart c (s.cur c))
     | [cs, as] => do let c ← idx cs.toList; let a ← as.toNat?; step s (.joinStart c a)
     | _ => none
@@ -126,7 +130,7 @@ def applyTok (ns : String) (n : Nat) (s : St) (tok : String) : Option St :=
       let s' ← step s (.joinCleanup c)
       chk (s'.lastJoin c == some (.err .ctxErr)) s'
     else none
-  | 'L' :: r => do let c ← idx r; step s (.leaveStart c)
+  | 'L' :: r => do let c ← idx (bang r); step s (.leaveStart c)
   | 'l' :: r => do let _ ← idx r; some s
   | 'D' :: r =>
     let str := String.ofList r
